@@ -77,8 +77,21 @@ try:
     @jaxtyped(typechecker=beartype)
     def f(x: Float[np.ndarray, "a"]): return 1
     try:
-        f(np.zeros((2, 2))); print("disabled")
-    except TypeCheckError: print("enabled")
+        f(np.zeros((2, 2))); a = "disabled"
+    except TypeCheckError: a = "enabled"
+    # a hooked module must follow the same switch
+    import os, tempfile, importlib
+    d = tempfile.mkdtemp()
+    open(os.path.join(d, "verif_hooked_mod.py"), "w").write("def g(x: int):\n    return x\n")
+    sys.path.insert(0, d)
+    from jaxtyping import install_import_hook
+    with install_import_hook("verif_hooked_mod", "beartype.beartype"):
+        import verif_hooked_mod
+    try:
+        verif_hooked_mod.g("no int"); b = "disabled"
+    except TypeCheckError: b = "enabled"
+    import shutil; shutil.rmtree(d, ignore_errors=True)
+    print(a if a == b else f"function:{a}/hooked-module:{b}")
 except ValueError: print("ValueError")
 except BaseException as e: print("Exc:" + type(e).__name__)
 '''
